@@ -237,6 +237,74 @@ def check_html_source():
     return r
 
 
+RTF_EXCLUDED = ("header", "footer", "fonttbl", "colortbl", "stylesheet", "info", "pict")     # from the statement (contracts/C02.py::RTF_EXCLUDED)
+RTF_BODY_WORDS = ("par", "pard", "plain", "b", "b0", "i", "f0", "fs24", "tab", "line", "cell", "row", "u8364", "'e9", "cf1", "qc", "li720", "sect")
+
+
+def check_rtf_skip():
+    """_RtfParser._is_skip_destination on lookaheads: the destination test of the group walker (function level).
+    Spec from the statement: ignorable destinations and headers / footers / non-text tables are skipped, body control words are not."""
+    import inspect
+    R = _mod("ms_legacy.rtf_extractor")
+    cls = getattr(R, "_RtfParser", None)
+    if cls is None:
+        raise Unresolved("_RtfParser")
+    f = getattr(cls, "_is_skip_destination", None)
+    if f is None:
+        cands = [o for _n, o in vars(cls).items() if inspect.isfunction(o) and len(inspect.signature(o).parameters) == 2
+                 and "startswith" in inspect.getsource(o) and "return" in inspect.getsource(o)]
+        if len(cands) != 1:
+            raise Unresolved("_RtfParser._is_skip_destination")
+        f = cands[0]
+    me = cls.__new__(cls)
+    r = Result()
+
+    def one(case, ahead, want):
+        try:
+            got = bool(f(me, ahead))
+        except Exception as e:  # noqa
+            got = f"{type(e).__name__}: {e}"
+        ok = got is want
+        r.add(case, ok, None if ok else {"target": "rtf_extractor._RtfParser._is_skip_destination", "inputs": repr(ahead), "expected": repr(want),
+                                         "observed": repr(got), "kinds": ["leaked" if want else "lost"]})
+    for d in RTF_EXCLUDED:
+        for tail_ in (" x", "\\pard x", "l x", "1 x", ""):
+            one("excluded-destination", "\\" + d + tail_, True)
+    for tail_ in ("\\annotation x", "\\unknowndest x", ""):
+        one("ignorable-destination", "\\*" + tail_, True)
+    for w in RTF_BODY_WORDS:
+        for tail_ in (" text", "\\b text", ""):
+            one("body-control-word", "\\" + w + tail_, False)
+    for d in RTF_EXCLUDED:
+        one("destination-name-as-text", d + " text", False)
+    return r
+
+
+def check_dt_units():
+    """data_types._join_unit_text on lists of 0..3 units with given texts (function level): every unit text once, in order, separated."""
+    import itertools
+    D = _mod("data_types")
+    f = _resolve(D, "_join_unit_text", 1, ["get_text"])
+    if f is None:
+        raise Unresolved("_join_unit_text")
+
+    class U:
+        def __init__(self, t):
+            self.t = t
+
+        def get_text(self):
+            return self.t
+    r = Result()
+    texts = ["UA1 one", "", "UB2\ttwo", " UC3 "]
+    for n in range(4):
+        for combo in itertools.product(texts, repeat=n):
+            if len([t for t in combo if t.strip()]) != len({t for t in combo if t.strip()}):
+                continue            # tokens are unique per document
+            ok, w = _cmp("data_types._join_unit_text", repr(list(combo)), f(iter([U(t) for t in combo])), "\n".join(combo))
+            r.add("units", ok, w)
+    return r
+
+
 def check_rtf_source():
     """read_rtf on source text: destination stripping (regexes + group walker)."""
     R = _mod("ms_legacy.rtf_extractor")
@@ -686,7 +754,7 @@ CHECKS = {
     "odt.body": check_odt_body, "html.extract": check_html_body, "odf.element_text": check_odf_text,
     "ods.sheet": check_ods_sheet, "xlsx.format": check_xlsx_format, "xls.format": check_xls_format,
     "dt.slides": check_dt_slides, "odp.slide": check_odp_slide, "html.source": check_html_source, "rtf.source": check_rtf_source, "pptx.shapes": check_pptx_shape_tree, "plain.decode": check_plain_decode, "epub.tables": check_epub_tables, "odp.tables": check_odp_tables, "epub.source": check_epub_source, "odg.text": check_odg_text, "pptx.paragraphs": check_pptx_paragraphs,
-    "rtf.unicode": check_rtf_unicode,
+    "rtf.unicode": check_rtf_unicode, "rtf.skip": check_rtf_skip, "dt.units": check_dt_units,
 }
 
 
@@ -719,7 +787,7 @@ FUNC_OF_CHECK = {
     "odg.text": "odg_extractor.py::_extract_full_text", "pptx.paragraphs": "pptx_extractor.py::_extract_text_from_paragraphs",
     "odp.slide": "odp_extractor.py::_extract_slide", "html.source": "html_extractor.py::read_html",
     "rtf.source": "rtf_extractor.py::read_rtf", "pptx.shapes": "pptx_extractor.py::read_pptx", "plain.decode": "plain_extractor.py::read_plain_text", "epub.tables": "epub_extractor.py::read_epub.iterate_tables", "odp.tables": "odp_extractor.py::read_odp.iterate_tables", "epub.source": "epub_extractor.py::read_epub",
-    "rtf.unicode": "rtf_extractor.py::_decode_unicode_run",
+    "rtf.unicode": "rtf_extractor.py::_decode_unicode_run", "rtf.skip": "rtf_extractor.py::_RtfParser._is_skip_destination", "dt.units": "data_types.py::_join_unit_text",
 }
 
 # obligation id fragment -> (check, cases, kinds)
@@ -738,10 +806,15 @@ WITNESS_MAP = [
     ("_HtmlTreeBuilder.", "html.source", None, None),
     ("_XhtmlTextExtractor.handle_endtag/ensures#buffered-chunks", "epub.tables", None, None),
     ("_XhtmlTextExtractor.handle_endtag/ensures#closed-cell", "epub.tables", None, None),
+    ("_XhtmlTextExtractor._normalize_ws/", "epub.tables", None, None),
     ("_XhtmlTextExtractor.", "epub.source", None, None),
     ("_extract_sheet/block#", "ods.sheet", None, None),
     ("plain_extractor.py::", "plain.decode", None, None),
     ("_strip_rtf_full_with_pages/step", "rtf.source", None, None),
+    ("_is_skip_destination/", "rtf.skip", None, None),
+    ("data_types.py::_join_unit_text/", "dt.units", None, None),
+    ("pptx_extractor.py::_extract_text_from_paragraphs/", "pptx.paragraphs", None, None),
+    ("docx_extractor.py::_extract_table_text/", "docx.table", None, None),
     ("_decode_unicode_run/", "rtf.unicode", None, None),
     ("_append_full_text_from_element/policy#", "odt.body", None, None),
     ("_extract_slide/block#slide-text", "odp.slide", None, None),
